@@ -91,19 +91,22 @@ class Ref:
         return ea & eb == ea
 
     def covers(self):
-        """(upper, lower): per concept the sorted index lists of upper/lower covers."""
+        """(upper, lower): per concept the sorted index lists of upper/lower covers.
+
+        j covers i iff i < j and nothing lies strictly between.  Candidates above i are visited by increasing
+        extent size; j is a cover iff no already accepted cover of i lies strictly below j (anything strictly
+        between i and j is above some cover of i).  selftest() compares this with the literal definition."""
         cs = self.concepts
         if self._covers is None:
             k = len(cs)
-            ext = [c[0] for c in cs]
-            above = [[j for j in range(k) if j != i and ext[i] & ext[j] == ext[i]] for i in range(k)]
+            ext = [c[0] for c in cs]            # shortlex: non-decreasing size
             upper = []
             for i in range(k):
                 ups = []
-                for j in above[i]:
-                    # j covers i iff nothing strictly between
-                    if not any(h != j and ext[h] & ext[j] == ext[h] for h in above[i]):
-                        ups.append(j)
+                for j in range(i + 1, k):
+                    if ext[i] & ext[j] == ext[i] and ext[i] != ext[j]:
+                        if not any(ext[c] & ext[j] == ext[c] for c in ups):
+                            ups.append(j)
                 upper.append(ups)
             lower = [[] for _ in range(k)]
             for i, ups in enumerate(upper):
@@ -111,6 +114,34 @@ class Ref:
                     lower[j].append(i)
             self._covers = (upper, lower)
         return self._covers
+
+    def covers_by_definition(self):
+        cs = self.concepts
+        k = len(cs)
+        ext = [c[0] for c in cs]
+        above = [[j for j in range(k) if j != i and ext[i] & ext[j] == ext[i]] for i in range(k)]
+        upper = [[j for j in above[i] if not any(h != j and ext[h] & ext[j] == ext[h] for h in above[i])]
+                 for i in range(k)]
+        lower = [[] for _ in range(k)]
+        for i, ups in enumerate(upper):
+            for j in ups:
+                lower[j].append(i)
+        return upper, lower
+
+    def covers_fast(self):
+        """Covers for large lattices: the upper covers of an extent A are the inclusion-minimal sets among the
+        closures of A + {g} (g not in A).  Cross-checked against the search-based covers() by selftest()."""
+        cs = self.concepts
+        upper = []
+        for ext, _ in cs:
+            cands = {self.close_o(ext | 1 << g) for g in range(self.n) if not ext >> g & 1}
+            mins = [c for c in cands if not any(d != c and d & c == d for d in cands)]
+            upper.append(sorted(self.index[c] for c in mins))
+        lower = [[] for _ in cs]
+        for i, ups in enumerate(upper):
+            for j in ups:
+                lower[j].append(i)
+        return upper, lower
 
     def dindex(self):
         """concept index -> position in longlex order."""
@@ -210,6 +241,10 @@ def selftest():
         assert got == sr.concepts(), (n, m, rows)
         assert len(got) == len(ref.concepts)
         upper, lower = ref.covers()
+        fu, fl = ref.covers_fast()
+        assert [sorted(x) for x in upper] == fu and [sorted(x) for x in lower] == [sorted(x) for x in fl], (n, m, rows)
+        du, dl = ref.covers_by_definition()
+        assert [sorted(x) for x in upper] == [sorted(x) for x in du] and lower == dl, (n, m, rows)
         for i, (a, b) in enumerate(ref.concepts):
             assert ref.intent_of(a) == b and ref.extent_of(b) == a
             for j in upper[i]:
